@@ -102,20 +102,26 @@ func ruleC14(w *World, r *Report) {
 	for k, c := range calls {
 		tag := fmt.Sprintf("addEndMarker call #%d", k+1)
 		pos := w.Pos(c.Pos())
-		s := symOf(c.Common().Args[0])
-		fields := s.Fields()
-		fromStored := len(fields) > 0
-		for _, f := range fields {
-			if !strings.HasPrefix(f, "PFCPSession.") || !strings.HasSuffix(f, ".fars") {
+		// every argument that describes the tunnel (the FAR itself, or its fields handed over one by one) comes
+		// from the stored, old FAR; the last argument is the caller's list
+		args := c.Common().Args
+		s := symOf(args[0])
+		for ai := 0; ai+1 < len(args); ai++ {
+			s = symOf(args[ai])
+			fields := s.Fields()
+			fromStored := len(fields) > 0
+			for _, f := range fields {
+				if !strings.HasPrefix(f, "PFCPSession.") || !strings.Contains(f, ".fars") {
+					fromStored = false
+				}
+			}
+			if !strings.Contains(s.String(), "fars[]") {
 				fromStored = false
 			}
+			r.check(fromStored, "R14.1", uname, tag+ifelse(len(args) > 2, fmt.Sprintf(" argument %d", ai+1), " argument")+" is the stored (old) FAR", pos, s.String(), "end marker is built from "+s.String()+" instead of the stored FAR")
 		}
-		if !strings.Contains(s.String(), "fars[]") {
-			fromStored = false
-		}
-		r.check(fromStored, "R14.1", uname, tag+" argument is the stored (old) FAR", pos, s.String(), "end marker is built from "+s.String()+" instead of the stored FAR")
-		// second argument is the caller's list
-		r.check(len(upd.Params) == 3 && c.Common().Args[1] == upd.Params[2], "R14.1", uname, tag+" appends to the caller's list", pos, "param endMarkerList", "end marker is appended to another list")
+		// last argument is the caller's list
+		r.check(len(upd.Params) == 3 && args[len(args)-1] == upd.Params[2], "R14.1", uname, tag+" appends to the caller's list", pos, "param endMarkerList", "end marker is appended to another list")
 		// guarded by f.sendEndMarker == true
 		instr := c.(ssa.Instruction)
 		flagGuard := onlyVia(upd, instr, func(a, b *ssa.BasicBlock) bool {
@@ -423,11 +429,11 @@ func ruleC14(w *World, r *Report) {
 	{
 		n := 0
 		allInstrs(aem, func(i ssa.Instruction) {
-			if st, ok := i.(*ssa.Store); ok && len(aem.Params) == 2 && st.Addr == ssa.Value(aem.Params[1]) {
+			if st, ok := i.(*ssa.Store); ok && len(aem.Params) >= 2 && st.Addr == ssa.Value(aem.Params[len(aem.Params)-1]) {
 				n++
 				again := reach(aem, i, func(j ssa.Instruction) bool {
 					s2, ok := j.(*ssa.Store)
-					return ok && s2.Addr == ssa.Value(aem.Params[1])
+					return ok && s2.Addr == ssa.Value(aem.Params[len(aem.Params)-1])
 				}, nil, nil)
 				r.check(again == nil, "R14.5", aname, "one append to the list per call", w.Pos(st.Pos()), "no second append reachable", "two packets appended for one FAR")
 			}
